@@ -54,6 +54,15 @@ def sh(cmd, cwd=None, env=None, timeout=None):
 _RUNLOCK = None
 
 
+def headtail(out, n=1800):
+    """first and last part of a long output (a Go fatal error names its cause in the first lines)"""
+    if len(out) <= 2 * n:
+        return out
+    i = out.find('fatal error:')
+    head = out[i:i + n] if i >= 0 else out[:n]
+    return head + '\n[...]\n' + out[-n:]
+
+
 class Lock:
     def __init__(self, name):
         os.makedirs(WORK, exist_ok=True)
@@ -221,6 +230,26 @@ def vo_current(v):
     return True
 
 
+def assumptions_cache(rel):
+    cache = os.path.join(WORK, "assumptions", rel.replace("/", "_") + ".txt")
+    os.makedirs(os.path.dirname(cache), exist_ok=True)
+    return cache
+
+
+def capture_assumptions(rel):
+    """Re-run coqc on one properties file alone and keep its output (the
+    Print Assumptions lines).  The caller holds Lock("coq")."""
+    v = os.path.join(COQ, rel)
+    tmpd = os.path.join(WORK, "assumptions", "tmp_%d_" % os.getpid() + rel.replace("/", "_"))
+    os.makedirs(tmpd, exist_ok=True)
+    rc, out = sh(["coqc", "-Q", COQ, "Verif", "-o", os.path.join(tmpd, os.path.basename(v)[:-2] + ".vo"), v], cwd=COQ, timeout=1200)
+    shutil.rmtree(tmpd, ignore_errors=True)
+    if rc != 0:
+        return False
+    open(assumptions_cache(rel), "w").write(out)
+    return True
+
+
 def ensure_coq(jobs=16, prop=None):
     """Full .vo build of the development (incremental).  Returns (ok, log,
     current) where current lists the properties files of [prop] whose .vo is
@@ -241,6 +270,14 @@ def ensure_coq(jobs=16, prop=None):
         current = []
         if prop is not None:
             current = [rel for rel in REGISTRY[prop]["properties_files"] if vo_current(os.path.join(COQ, rel))]
+            # Properties files tied to coq/Generated: capture their Print
+            # Assumptions output now, under the same lock, so that a
+            # concurrent run regenerating coq/Generated from another checkout
+            # cannot get in between the build and the capture.
+            for rel in current:
+                v = os.path.join(COQ, rel)
+                if any(os.path.relpath(f, COQ).startswith("Generated" + os.sep) for f in file_cone(v)):
+                    capture_assumptions(rel)
         return (rc == 0 and okc and okw and oka), log, current
 
 
@@ -291,17 +328,11 @@ def obligations(prop, current=None):
         if not (os.path.exists(vo) and os.path.getmtime(vo) >= os.path.getmtime(v)):
             continue
         # Re-run coqc on the properties file alone to capture Print Assumptions.
-        cache = os.path.join(WORK, "assumptions", rel.replace("/", "_") + ".txt")
-        os.makedirs(os.path.dirname(cache), exist_ok=True)
+        cache = assumptions_cache(rel)
         if not (os.path.exists(cache) and os.path.getmtime(cache) >= os.path.getmtime(vo)):
             with Lock("coq"):
-                tmpd = os.path.join(WORK, "assumptions", "tmp_" + rel.replace("/", "_"))
-                os.makedirs(tmpd, exist_ok=True)
-                rc, out = sh(["coqc", "-Q", COQ, "Verif", "-o", os.path.join(tmpd, os.path.basename(v)[:-2] + ".vo"), v], cwd=COQ, timeout=1200)
-                shutil.rmtree(tmpd, ignore_errors=True)
-                if rc != 0:
+                if not capture_assumptions(rel):
                     continue
-                open(cache, "w").write(out)
         out = open(cache).read()
         done += names
         closed = out.count("Closed under the global context")
@@ -440,7 +471,7 @@ def main(argv):
         rc, out = sh(cmd, cwd=HARNESS, env=GOENV, timeout=cfg.get("harness_timeout", 1500) * (6 if a.tier == "thorough" else 1))
         rp = os.path.join(outdir, "report.json")
         if rc != 0 or not os.path.exists(rp):
-            corr_broken = "harness run failed (rc=%d):\n%s" % (rc, out[-3000:])
+            corr_broken = "harness run failed (rc=%d):\n%s" % (rc, headtail(out))
         else:
             report = json.load(open(rp))
             # 4. model + monitor inside Coq
@@ -462,7 +493,7 @@ def main(argv):
                      timeout=extra.get("timeout", 900) * (6 if a.tier == "thorough" else 1))
         xrp = os.path.join(xdir, "report.json")
         if rc != 0 or not os.path.exists(xrp):
-            corr_broken = (corr_broken or "") + "harness %s run failed (rc=%d):\n%s" % (name, rc, out[-2000:])
+            corr_broken = (corr_broken or "") + "harness %s run failed (rc=%d):\n%s" % (name, rc, headtail(out))
             continue
         xrep = json.load(open(xrp))
         okc, xrows, clog = run_cases(xdir)
